@@ -460,9 +460,72 @@ class Unord:
             kind = "keyed-commutative" if KEYED_COMMUTATIVE_RE.search(p) else ("ordered-mutator" if m in ORDERED_MUTATORS else "other")
             if kind == "other":
                 kind = self._helper_effect(c) or kind
+            if kind == "other":
+                # a private helper (possibly taking a closure it applies to the state): its own mutable calls, and those of the
+                # closure literal handed to it, are the loop's effects - reviewed rows name *those* callees
+                ex = self._expand_effects(fn, c)
+                if ex:
+                    for (p2, k2, ln2) in ex:
+                        d2 = {"callee": p2, "kind": k2, "line": ln2}
+                        if d2 not in info["effects"]:
+                            info["effects"].append(d2)
+                    continue
+            if kind == "ordered-mutator" and c.args:
+                # pushing into a container *owned by this body* (a local Vec/String that is not a parameter and not reached
+                # through one) makes that local order-tainted - which the taint pass above records and follows to every
+                # sink (store / pick / return); the effect itself touches no shared state
+                r = self.root_local(fn, c.args[0])
+                argc = fn.j["mir"]["argc"]
+                if r is not None and r > argc and not (fn.local_ty(r).startswith("&") or fn.local_ty(r).startswith("*")):
+                    kind = "keyed-commutative"
             d = {"callee": p, "kind": kind, "line": c.line}
             if d not in info["effects"]:
                 info["effects"].append(d)
+
+    def _mut_calls(self, g):
+        out = []
+        for cc in g.calls():
+            if g.is_cleanup(cc.bb):
+                continue
+            if not any("l" in a and re.match(r"^&('[a-z_]+ )?mut ", g.local_ty(a["l"])) for a in cc.args):
+                continue
+            pp = cc.target_path or ""
+            mm = cc.method or pp.split("::")[-1]
+            if (cc.trait or "").endswith("Iterator") or mm in ("deref_mut", "as_mut", "expect", "unwrap", "borrow_mut", "fmt", "by_ref"):
+                continue
+            out.append(cc)
+        return out
+
+    def _expand_effects(self, fn, c, depth=0):
+        """[(callee path, kind, line)] of the mutable calls a private helper makes - through further private helpers, and through
+        the closure literal(s) the call site hands it when the helper applies a closure parameter; None when it is not a
+        private helper or something in it cannot be named"""
+        from facts import is_private_helper
+        g = self.F.fns.get(c.target_id) if c.target_id else None
+        if g is None or not is_private_helper(g) or depth > 2:
+            return None
+        out = []
+        closures = [self.F.fns.get(x) for x in ((c.func or {}).get("arg_cl") or [])]
+        for cc in self._mut_calls(g):
+            pp = cc.target_path or ""
+            mm = cc.method or pp.split("::")[-1]
+            if cc.trait in ("std::ops::FnOnce", "std::ops::FnMut", "std::ops::Fn") and cc.res is None:
+                if not closures or any(x is None for x in closures):
+                    return None
+                for cl in closures:
+                    for c3 in self._mut_calls(cl):
+                        p3 = c3.target_path or ""
+                        m3 = c3.method or p3.split("::")[-1]
+                        out.append((p3, "keyed-commutative" if KEYED_COMMUTATIVE_RE.search(p3) else ("ordered-mutator" if m3 in ORDERED_MUTATORS else "other"), c.line))
+                continue
+            k2 = "keyed-commutative" if KEYED_COMMUTATIVE_RE.search(pp) else ("ordered-mutator" if mm in ORDERED_MUTATORS else "other")
+            if k2 == "other":
+                sub = self._expand_effects(g, cc, depth + 1)
+                if sub:
+                    out += sub
+                    continue
+            out.append((pp, k2, c.line))
+        return out or None
 
     def _helper_effect(self, c, depth=0):
         """a private helper handed `&mut` state is what it does with it: keyed-commutative when every mutable call in its own
